@@ -413,6 +413,12 @@ pub fn check_user_invariants(state: &mut PState) {
 
 /// The whole query goal, exactly as `proto_vulcan_query!` lays it out.
 pub fn build_query(p: &Program) -> PQuery {
+    let (qvars, goal) = build_query_parts(p);
+    Query::new(qvars, goal)
+}
+
+/// The query variables and the whole query goal (for driving a `Solver` directly).
+pub fn build_query_parts(p: &Program) -> (Vec<PTerm>, PGoal) {
     use proto_vulcan::relation as rel;
     let mut env: Env = Vec::new();
     let mut qvars: Vec<PTerm> = vec![];
@@ -437,7 +443,19 @@ pub fn build_query(p: &Program) -> PQuery {
     ];
     let inner: PGoal = GoalCast::cast_into(InferredConj::<SimUser, Eng, PGoal>::from_array(&parts));
     let goal: PGoal = GoalCast::cast_into(Fresh::<SimUser, Eng, PGoal>::new(vec![query_var], inner));
-    Query::new(qvars, goal)
+    (qvars, goal)
+}
+
+/// What `ResultIterator::next` does with a final state, for harness code that drives a `Solver`
+/// itself (to fork streams and to look at the user state of answer states).
+pub fn row_of_state(state: &PState, qvars: &[PTerm]) -> Row {
+    let smap = state.smap_ref();
+    let purified = state.cstore_ref().clone().purify(smap).normalize();
+    let reified = Rc::new(purified.walk_star(smap));
+    Row(qvars
+        .iter()
+        .map(|v| LResult::<SimUser, Eng>(smap.walk_star(v), Rc::clone(&reified)))
+        .collect())
 }
 
 // ---------------------------------------------------------------------------------------------
